@@ -789,6 +789,7 @@ func (e *env) apkCompareOps(n int) {
 		}
 		got := timed(5*time.Second, func() string { return apkCompare(a, b) })
 		r.Op("apkcmp "+hexs(a)+" "+hexs(b), got, a != b)
+		r.Op("apkcmp2 "+hexs(a)+" "+hexs(b), got, a != b)
 		r.Count("apkcmp:result:" + got)
 		if expect != 2 && got != sign(expect) {
 			r.Fail("", fmt.Sprintf("apk-order: Compare(%q,%q)=%s, the apk version scheme says %s", a, b, got, sign(expect)))
@@ -1155,7 +1156,9 @@ func (e *env) corpus() error {
 				e.r.Op("rpmcmp "+hexs(a)+" "+hexs(b), timed(5*time.Second, func() string { return sign(rpmver.NewVersion(a).Compare(rpmver.NewVersion(b))) }), true)
 			case w[0] == "apkcmp" && len(w) == 3:
 				a, b := undash(w[1]), undash(w[2])
-				e.r.Op("apkcmp "+hexs(a)+" "+hexs(b), timed(5*time.Second, func() string { return apkCompare(a, b) }), true)
+				got := timed(5*time.Second, func() string { return apkCompare(a, b) })
+				e.r.Op("apkcmp "+hexs(a)+" "+hexs(b), got, true)
+				e.r.Op("apkcmp2 "+hexs(a)+" "+hexs(b), got, true)
 			case w[0] == "debcmp" && len(w) == 3:
 				a, b := undash(w[1]), undash(w[2])
 				line := "debcmp " + hexs(a) + " " + hexs(b)
